@@ -226,6 +226,23 @@ def predicate(fi, nodes, index=None):
                     isinstance(pa.targets[0], ast.Name) and isinstance(pa.value, ast.Call) and \
                     call_never_none(index, fi, pa.value):
                 local_false[nid] = '%s is None' % pa.targets[0].id
+    # `self.m()` where the class's own m is `return <constant>`: the test has that value for instances of this very class
+    # (a subclass that overrides m has its own entry in the reference, or inherits and is then not compared)
+    if fi.cls is not None:
+        for a in list(atoms):
+            try:
+                e = ast.parse(a, mode='eval').body
+            except SyntaxError:
+                continue
+            if isinstance(e, ast.Call) and not e.args and not e.keywords and isinstance(e.func, ast.Attribute) and \
+                    norm(e.func.value) == 'self':
+                m = fi.cls.find_method(e.func.attr)
+                if m is not None:
+                    body = [b for b in m.node.body if not (isinstance(b, ast.Expr) and isinstance(b.value, ast.Constant))]
+                    if len(body) == 1 and isinstance(body[0], ast.Return) and isinstance(body[0].value, ast.Constant) and \
+                            isinstance(body[0].value.value, bool):
+                        forced[a] = body[0].value.value
+                        atoms.discard(a)
     atoms = sorted(atoms)
     if len(atoms) > MAX_ATOMS:
         return None
@@ -376,9 +393,23 @@ def compare(ref, cur, cap=300000):
             sorted(v_ref - v_cur)[:3], sorted(v_cur - v_ref)[:3])
     only_ref = [a for a in ra if a not in ca and opaque(a)]
     only_cur = [a for a in ca if a not in ra and opaque(a)]
+    def folded(vanished, remaining):
+        # `x is not None and f(x, ..)` -> `f(x, ..)`: the None test may have moved into the callee; the tables cannot tell
+        for a in vanished:
+            k = cls[a]
+            if not (k[0] == 'sym' and set(k[3]) == {None}):
+                return False
+            var = k[1]
+            if not any(cls[b][0] == 'bool' and ('(%s,' % var in b or '(%s)' % var in b or ', %s)' % var in b or ', %s,' % var in b)
+                       for b in remaining):
+                return False
+        return bool(vanished)
     if only_ref and only_cur:
         return None, None, 'elementary tests rewritten on both sides: reference-only %s, current-only %s' % (
             [x[:40] for x in only_ref[:3]], [x[:40] for x in only_cur[:3]])
+    sym_only_ref = [a for a in ra if a not in ca and cls[a][0] == 'sym']
+    if sym_only_ref and not [a for a in ca if a not in ra] and folded(sym_only_ref, ca):
+        return None, None, 'a None test next to a call on the same value was dropped (%s): it may have moved into the callee' % sym_only_ref[:2]
     rrows, crows = set(ref['rows']), set(cur['rows'])
     bools = sorted(a for a in set(ra) | set(ca) if opaque(a))
     doms = []
